@@ -18,8 +18,8 @@ US = 10**6
 DAY = 86400 * US
 RULE = ("oracle: unit identity from the local fields (native rendering), unit boundary wall time W computed by calendar arithmetic, pre-image oracle for W; "
         "W unique -> exact instant; W skipped/repeated -> candidate set with the direction-correct candidate always accepted")
-ASSUMPTIONS = ["zoneinfo/tzdata", "the statement does not say whether the two occurrences of a repeated wall-clock unit are one unit or two: when x itself lies in the "
-               "overlap the occurrence containing x is accepted as well", "decade/century units exercised for years 100..9899 (boundaries must be representable)"]
+ASSUMPTIONS = ["zoneinfo/tzdata", "the statement does not say whether the two occurrences of a repeated wall-clock unit are one unit or two: for second/minute/hour, when x itself lies in "
+               "the overlap, the occurrence containing x is accepted as well (pinned by the repository's own tests); day and larger units span both occurrences", "decade/century units exercised for years 100..9899 (boundaries must be representable)"]
 UNITS = ["second", "minute", "hour", "day", "week", "month", "year", "decade", "century"]
 DATE_UNITS = ["day", "week", "month", "year", "decade", "century"]
 PROVS = ["constructed-fold1", "constructed-fold0", "converted", "instance", "parsed"]
